@@ -193,6 +193,16 @@ CLAIMED = {
              "invalid sync types fall back to link setup and fail, packet EOF, TYPE dispatch).  Tie: all sequences up to length 3 (4 thorough) over 14 frame "
              "kinds + long random histories on fresh and pre-dirtied real decoders vs the extracted model and the state-machine oracle.",
         design="§4 C08, §12.2", technique="Coq proof (bisimulation up to hidden buffers; refinement to a buffer-free state machine) + extracted-model differential incl. pre-dirtied decoders"),
+    "C01": dict(
+        text="Machine-checked proof (Coq): for ALL payloads (2^240 LSFs, 2^144 stream payloads with every LICH fragment number 0..5, 2^206 packet and 2^197 "
+             "BERT payloads), ALL magnitude vectors in {1..7}^368 and all decoder states with arbitrary hidden buffer contents, a frame produced by the "
+             "specification encoder (SpecM17.v: convolutional code, puncturing, interleaving, randomizing, Golay LICH) is returned bit-exact by the frame-"
+             "decoder model under the matching sync type/mode - with cost 0 at full confidence, the right return code, mode transition and callback; an LSF "
+             "with a bad CRC fails without callback; the LICH of a stream frame in link-setup mode unpacks to exactly the fragment.  Corollaries for the frames "
+             "m17-mod emits (via C13); frames of M17Modulator equal the spec encoder's (C14).  Composition of C02 (clean code words decode uniquely), C04, C10, "
+             "C11 and spec-agreement lemmas.  Tie: clean frames from three transmitters (spec-derived generator, real m17-mod in bitstream and BERT mode, real "
+             "M17Modulator with real threads) at soft levels 7 / 1 / random 1..7 through the real decoder vs the extracted model, re-encode oracle.",
+        design="§4 C01, §12.2", technique="Coq proof (composition of stage theorems and spec-agreement lemmas) + extracted-model differential over three transmitters"),
 }
 
 NOT_YET = {}
